@@ -51,7 +51,7 @@ def main():
     if tier == "thorough":
         # phase 2 ("deep"): wider bounds; per-condition budgets are scaled so that the phase fits the wall budget; a condition whose
         # path tree is not exhausted in its budget is reported as PARTIAL (explored part held), never as confirmed
-        wall = float(os.environ.get("VERIF_THOROUGH_WALL", "600"))
+        wall = float(os.environ.get("VERIF_THOROUGH_WALL") or plan.get("deep_wall", 600))
         tot = sum(c.timeout for c in conds) + sum(o.timeout for o in obls)
         scale = min(1.0, wall * core.JOBS / max(tot, 1.0))
         for x in conds + obls:
